@@ -80,6 +80,10 @@ theorem insertAt_length (ops : OpList) (k : Nat) (x : Rec) (hk : k ≤ ops.lengt
 
 /-! ### `insert_operator` -/
 
+/-- Identity, used as a barrier: `generalize h : a = x; revert x; refine barrier ?_; intro x h` keeps `x` a bound
+    variable in the final proof term (without the barrier the elaborator beta-reduces the generalisation away). -/
+theorem barrier {α : Sort u} {a : α} {P : α → Prop} (h : ∀ x, a = x → P x) : ∀ x, a = x → P x := h
+
 theorem insert_operator_src_eq (self_operators : List Yaql.OpTable.Rec) (fuel : Nat)
     (existing_operator : Option (List Char)) (existing_operator_binary : Bool) (new_operator : List Char)
     (new_operator_type : Yaql.OpTable.OpType) (create_group : Bool) (new_operator_alias : Option (List Char))
@@ -89,30 +93,78 @@ theorem insert_operator_src_eq (self_operators : List Yaql.OpTable.Rec) (fuel : 
       = Yaql.PyOp.liftErr (Yaql.OpTable.insertOperator self_operators existing_operator existing_operator_binary
           new_operator new_operator_type create_group new_operator_alias) := by
   unfold SrcOpTable.insert_operator insertOperator
+  -- `Py.listInsert?` is made opaque first: the kernel must never evaluate `Py.ssizeOk` (a comparison with `2 ^ 63`)
+  -- on a symbolic position while checking the reductions of the `match`es below
+  generalize hI : @Py.listInsert? Rec = ins
+  revert ins
+  refine barrier ?_
+  intro ins hI
+  have hins : ∀ (xs : OpList) (i : Int) (k : Nat) (v : Rec), i = (k : Int) → k ≤ xs.length →
+      (xs.length : Int) < 2 ^ 63 → ins xs i v = .ok (insertAt xs k v) := by
+    rw [← hI]; exact insert_eq
+  clear hI
   cases existing_operator with
   | none =>
     simp only []
     by_cases hcg : create_group = true
     · by_cases hz : 0 = self_operators.length
       · have hz' : (0 : Int) = (self_operators.length : Int) := by omega
-        rw [if_pos hcg, if_pos hz', if_pos hcg,
-          insert_eq (self_operators ++ [Rec.sep]) _ (0 + 1) _ (by simp) (by simp) (by simp; omega)]
+        simp only [if_pos hcg, if_pos hz']
+        rw [hins (self_operators ++ [Rec.sep]) _ (0 + 1) _ (by simp) (by simp) (by simp; omega)]
         simp [hz, PyOp.liftErr]
       · have hz' : ¬ ((0 : Int) = (self_operators.length : Int)) := by omega
-        rw [if_pos hcg, if_neg hz', if_pos hcg]
-        generalize hw : Py.whileLoop fuel _ _ _ = w
+        simp only [if_pos hcg, if_neg hz']
         rw [scan_go self_operators Rec.isSep _ _ (by py_body)
-          (by intro k v hk hv; simp [hv, hk, recLen_lt_two]) (by intro k hk; simp; omega) fuel 0 0 rfl hfuel] at hw
-        subst hw
+          (by intro k v hk hv; simp [hv, hk, recLen_lt_two]) (by intro k hk; simp; omega) fuel 0 0 rfl hfuel]
         have hA := advance_le Rec.isSep self_operators 0 (by omega)
         have hL := insertAt_length self_operators _ Rec.sep hA
         simp only []
-        rw [insert_eq self_operators _ _ Rec.sep rfl hA (by omega)]
+        rw [hins self_operators _ _ Rec.sep rfl hA (by omega)]
         simp only []
-        rw [insert_eq (insertAt _ _ _) _ _ _ rfl (by omega) (by omega)]
+        rw [hins (insertAt _ _ _) _ _ _ rfl (by omega) (by omega)]
         simp [hz, PyOp.liftErr]
-    · rw [if_neg hcg, if_neg hcg, insert_eq self_operators 0 0 _ rfl (by omega) (by omega)]
+    · simp only [if_neg hcg]
+      rw [hins self_operators 0 0 _ rfl (by omega) (by omega)]
       simp [PyOp.liftErr]
-  | some e => sorry
+  | some e =>
+    simp only []
+    rw [search_go e existing_operator_binary _ (by
+      intro s i x
+      cases x with
+      | sep => simp [PyOp.recLen, matchesExisting]
+      | op sym ty al =>
+        by_cases hs : sym = e <;> cases existing_operator_binary <;> cases ty <;>
+          simp [hs, PyOp.recLen, PyOp.recSym?, PyOp.recType?, matchesExisting, Py.contains, OpType.isBinary,
+            OpType.isUnary]) self_operators (-1)]
+    cases hfe : findExisting e existing_operator_binary self_operators 0 with
+    | none => simp [PyOp.liftErr]
+    | some j =>
+      have hj := findExisting_lt _ _ _ _ hfe
+      simp only []
+      rw [if_neg (by omega), scan_go self_operators Rec.isOp _ _ (by py_body)
+        (by intro k v hk hv; simp [hv, hk, recLen_gt_one]) (by intro k hk; simp; omega) fuel (j : Int) j rfl hfuel]
+      simp only []
+      have hP := advance_le Rec.isOp self_operators j (by omega)
+      generalize advance Rec.isOp self_operators j = P at hP ⊢
+      by_cases hcg : create_group = true
+      · by_cases hz : P = self_operators.length
+        · have hz' : (P : Int) = (self_operators.length : Int) := by omega
+          simp only [if_pos hcg, if_pos hz']
+          rw [hins (self_operators ++ [Rec.sep]) _ (P + 1) _ (by simp) (by simp; omega) (by simp; omega)]
+          simp [hz, PyOp.liftErr]
+        · have hz' : ¬ ((P : Int) = (self_operators.length : Int)) := by omega
+          simp only [if_pos hcg, if_neg hz']
+          rw [scan_go self_operators Rec.isSep _ _ (by py_body)
+            (by intro k v hk hv; simp [hv, hk, recLen_lt_two]) (by intro k hk; simp; omega) fuel (P : Int) P rfl hfuel]
+          have hA := advance_le Rec.isSep self_operators P hP
+          have hL := insertAt_length self_operators _ Rec.sep hA
+          simp only []
+          rw [hins self_operators _ _ Rec.sep rfl hA (by omega)]
+          simp only []
+          rw [hins (insertAt _ _ _) _ _ _ rfl (by omega) (by omega)]
+          simp [hz, PyOp.liftErr]
+      · simp only [if_neg hcg]
+        rw [hins self_operators (P : Int) P _ rfl (by omega) (by omega)]
+        simp [PyOp.liftErr]
 
 end Yaql.Props.SrcOpTable
